@@ -225,10 +225,14 @@ EnumValueAt(n, j) ==
       vp == n.path \o <<"values", j>>
       pos == NodePos(n) \o "/value"
       free == ~ValueReferenced(n, n.e.values[j].name)
+      \* an edge value that a sibling already has would be a second rule's business (R_Unique.valuenum)
+      Collides(v) == \E k \in 1 .. Len(n.e.values) :
+                        k # j /\ (IF p = "char" THEN n.e.values[k].value = v ELSE B!CanonValue(n.e.values[k].value) = B!CanonValue(v))
+      Keep(m) == m.kind # "boundary" \/ ~Collides(m.edits[1].val)
   IN IF p = "char"
-     THEN <<Brk("R_ValueFits.enum", pos, "char/two-chars", <<E(vp, "value", "xy")>>),
-            Bnd("R_ValueFits.enum", pos, "char/one-char", <<E(vp, "value", "Z")>>)>>
-     ELSE ValueEditsX("R_ValueFits.enum", pos, p, vp, "value", free, free)
+     THEN Sel(<<Brk("R_ValueFits.enum", pos, "char/two-chars", <<E(vp, "value", "xy")>>),
+                Bnd("R_ValueFits.enum", pos, "char/one-char", <<E(vp, "value", "Z")>>)>>, Keep)
+     ELSE Sel(ValueEditsX("R_ValueFits.enum", pos, p, vp, "value", free, free), Keep)
 EnumValueMuts == Flat(MapL(EnumNodes, LAMBDA n : Flat([j \in 1 .. Len(n.e.values) |-> EnumValueAt(n, j)])))
 
 ChoiceAt(n, j) ==
@@ -468,7 +472,17 @@ UniqueMuts ==
     SiblingMuts("R_Unique.value", NodePos(n), [j \in 1 .. Len(n.e.values) |->
       Item(n.path \o <<"values", j>>, n.e.values[j].name, ~ValueReferenced(n, n.e.values[j].name))]))) \o
   Flat(MapL(SetNodes, LAMBDA n :
-    SiblingMuts("R_Unique.choice", NodePos(n), [j \in 1 .. Len(n.e.choices) |-> Item(n.path \o <<"choices", j>>, n.e.choices[j].name, TRUE)])))
+    SiblingMuts("R_Unique.choice", NodePos(n), [j \in 1 .. Len(n.e.choices) |-> Item(n.path \o <<"choices", j>>, n.e.choices[j].name, TRUE)]))) \o
+  \* one VALUE under two names: the sibling's lexeme, and (integers) the sibling's value spelled with a leading zero
+  Flat(MapL(EnumNodes, LAMBDA n :
+    LET nv == Len(n.e.values)
+        ischar == B!EncPrim(n.e.enc) = "char"
+    IN IF nv < 2 THEN <<>>
+       ELSE Flat([j \in 1 .. nv |->
+              LET other == n.e.values[NextIdx(j, nv)].value
+              IN <<Brk("R_Unique.valuenum", NodePos(n), "same-as-sibling", <<E(n.path \o <<"values", j>>, "value", other)>>)>> \o
+                 Opt(~ischar /\ Len(other) >= 1 /\ B!Ch(other, 1) # "-",
+                     <<Brk("R_Unique.valuenum", NodePos(n), "sibling-with-leading-zero", <<E(n.path \o <<"values", j>>, "value", "0" \o other)>>)>>)])))
 
 ----------------------------------------------------------------------------
 (* 7. probes: edits on which the rule list of C08 is silent (the property   *)
